@@ -216,7 +216,7 @@ func requiresV050(spec *Spec) bool {
 	for _, e := range edits {
 		for _, dn := range e.DeviceNodes {
 			// The HostPath field was added in v0.5.0
-			if dn.HostPath != "" {
+			if dn != nil && dn.HostPath != "" {
 				return true
 			}
 		}
@@ -236,7 +236,7 @@ func requiresV040(spec *Spec) bool {
 	for _, e := range edits {
 		for _, m := range e.Mounts {
 			// The Type field was added in v0.4.0
-			if m.Type != "" {
+			if m != nil && m.Type != "" {
 				return true
 			}
 		}
